@@ -6,4 +6,4 @@ for c in "$@"; do for s in $SEEDS; do
   out=$(VERIF_SEED=$s ./check $c --tier $TIER --no-evidence 2>&1); rc=$?
   echo "$c seed=$s tier=$TIER exit=$rc $(echo "$out" | head -1 | sed 's/.*cases=/cases=/')"
   [ $rc != 0 ] && echo "$out" | grep -E "violation|INCONCLUSIVE" | head -3 | cut -c1-400
-done; done
+done; done; exit 0
